@@ -110,6 +110,12 @@ class SimGenerator(np.random.Generator):
         self.calls = []
         self._h = hashlib.blake2b(digest_size=16)
 
+    def __reduce__(self):
+        # numpy's own __reduce__ rebuilds a plain Generator; keep the device (and its draw budget) across pickle boundaries
+        if self.mode != "record":
+            raise HarnessUnsupported("a choose-mode generator cannot cross a process boundary")
+        return (_rebuild_record, (self.bit_generator, self.max_draws, self.log_calls))
+
     # ------------------------------------------------------------------ core
     def _count(self, kind):
         self.n_draws += 1
@@ -433,6 +439,10 @@ class SimGenerator(np.random.Generator):
                "multivariate_normal", "multivariate_hypergeometric", "noncentral_chisquare", "noncentral_f", "bytes"):
         locals()[_n] = _unsupported(_n)
     del _n, _unsupported
+
+
+def _rebuild_record(bitgen, max_draws, log_calls):
+    return SimGenerator(mode="record", bitgen=bitgen, max_draws=max_draws, log_calls=log_calls)
 
 
 # ---------------------------------------------------------------- exploration
